@@ -10,6 +10,12 @@ For each /verif/seeded/<name>/ (patch.diff + meta.json) that is a valid seeded c
 Results go to /verif/seeded/RECHECK.json and RECHECK.md.
 
 usage: tools/recheck_seeds.py [--slots N] [--only substring]
+       tools/recheck_seeds.py --names a,b,c --base-rev <rev>     (merge into RECHECK.json)
+
+--base-rev: a few kept patches edit lines that a later `fix:` commit in /repo rewrote and no longer
+apply (or no longer compile) on the current tree. They are re-run against the revision they were
+written for (git archive), with the one generator feature that targets the fixed defect switched off
+(VERIF_NO_ADD_MIX=1), and merged into the results with a note.
 """
 import json, os, re, shutil, subprocess, sys, time
 from concurrent.futures import ThreadPoolExecutor
@@ -24,6 +30,8 @@ def sh(cmd, cwd=None, env=None, timeout=3000):
     except subprocess.TimeoutExpired:
         return 124, "timeout"
 
+BASE_REV = None
+
 def one(name):
     sd = f"/verif/seeded/{name}"
     meta = json.load(open(f"{sd}/meta.json"))
@@ -35,13 +43,20 @@ def one(name):
     d = f"/tmp/seedrecheck/{name}"
     shutil.rmtree(d, ignore_errors=True)
     os.makedirs(d)
-    sh(f"rsync -a --exclude target --exclude .git /repo/ {d}/repo/")
+    if BASE_REV:
+        os.makedirs(f"{d}/repo")
+        sh(f"git -C /repo archive {BASE_REV} | tar -x -C {d}/repo")
+        res["base"] = BASE_REV
+    else:
+        sh(f"rsync -a --exclude target --exclude .git /repo/ {d}/repo/")
     rc, out = sh(f"patch -p1 --no-backup-if-mismatch < {sd}/patch.diff", cwd=f"{d}/repo")
     if rc != 0:
         res["note"] = "patch no longer applies"
         shutil.rmtree(d, ignore_errors=True)
         return res
     env = {"VERIF_REPO": f"{d}/repo", "VERIF_TARGET": f"{d}/target", "VERIF_OUT": f"{d}/out", "VERIF_SEED": "0"}
+    if BASE_REV:
+        env["VERIF_NO_ADD_MIX"] = "1"
     for c in caught:
         t0 = time.time()
         rc, out = sh(f"./check {c} --tier quick", cwd="/verif", env=env)
@@ -58,6 +73,8 @@ def one(name):
             r["replay_on_patched"] = rc2
             # against the unchanged tree: default target dir, outputs redirected away from /verif
             rc3, out3 = sh(f"./check {c} --replay {keep}", cwd="/verif", env={"VERIF_OUT": f"{d}/out-pristine", "VERIF_SEED": "0"})
+            if BASE_REV and rc3 != 0:
+                r["replay_on_pristine_note"] = "the unchanged tree is the one after the fix; this case was written for the tree before it"
             r["replay_on_pristine"] = rc3
             if rc2 != 1 or rc3 != 0:
                 r["replay_detail"] = (out2[-300:] + " || " + out3[-300:])
@@ -65,8 +82,29 @@ def one(name):
     shutil.rmtree(d, ignore_errors=True)
     return res
 
+def write_report(results):
+    json.dump(results, open("/verif/seeded/RECHECK.json", "w"), indent=1)
+    caught_then = [r for r in results if r["checks"]]
+    n_caught = sum(1 for r in caught_then if all(v.get("exit") == 1 for v in r["checks"].values()))
+    n_replay = sum(1 for r in caught_then if all(v.get("replay_on_patched") == 1 and v.get("replay_on_pristine") == 0 for v in r["checks"].values()))
+    n_base = sum(1 for r in results if r.get("base"))
+    with open("/verif/seeded/RECHECK.md", "w") as f:
+        f.write("# Seeded changes re-run against the current harness\n\n")
+        f.write(f"{len(results)} kept changes; {len(caught_then)} were re-run (the others are the documented non-catches); "
+                f"{n_caught} of those are caught again by every check that caught them when they were filed (quick tier, VERIF_SEED=0); "
+                f"for {n_replay} every replay file written by the check reproduces the violation on the changed tree (exit 1) and is clean on the unchanged tree (exit 0). "
+                f"{n_base} changes were re-run against the revision they were written for (column 'base'), because fix 31bb6f9 rewrote the lines they edit.\n\n")
+        f.write("| change | property | base | check: exit / replay on changed / replay on unchanged |\n|---|---|---|---|\n")
+        for r in results:
+            cs = "; ".join(f"{c}: {v.get('exit')} / {v.get('replay_on_patched')} / {v.get('replay_on_pristine')}" for c, v in r["checks"].items()) or r.get("note", "")
+            if r.get("note") and r["checks"]:
+                cs += " - " + r["note"]
+            f.write(f"| {r['name']} | {r.get('property')} | {r.get('base', '')} | {cs} |\n")
+
 def main():
+    global BASE_REV
     slots, only = 4, None
+    names_arg = None
     a = sys.argv[1:]
     i = 0
     while i < len(a):
@@ -74,11 +112,17 @@ def main():
             slots = int(a[i + 1]); i += 2
         elif a[i] == "--only":
             only = a[i + 1]; i += 2
+        elif a[i] == "--names":
+            names_arg = a[i + 1].split(","); i += 2
+        elif a[i] == "--base-rev":
+            BASE_REV = a[i + 1]; i += 2
         else:
             i += 1
     names = sorted(n for n in os.listdir("/verif/seeded") if os.path.exists(f"/verif/seeded/{n}/meta.json"))
     if only:
         names = [n for n in names if only in n]
+    if names_arg:
+        names = [n for n in names if n in names_arg]
     results = []
     with ThreadPoolExecutor(max_workers=slots) as ex:
         for r in ex.map(one, names):
@@ -87,18 +131,13 @@ def main():
             print(r["name"], "OK" if (ok and r["checks"]) else r.get("note", "PROBLEM " + json.dumps(r["checks"])[:400]), flush=True)
     if only:
         return 0
-    json.dump(results, open("/verif/seeded/RECHECK.json", "w"), indent=1)
-    n_caught = sum(1 for r in results if r["checks"] and all(v.get("exit") == 1 for v in r["checks"].values()))
-    n_replay = sum(1 for r in results if r["checks"] and all(v.get("replay_on_patched") == 1 and v.get("replay_on_pristine") == 0 for v in r["checks"].values()))
-    with open("/verif/seeded/RECHECK.md", "w") as f:
-        f.write("# Seeded changes re-run against the current harness\n\n")
-        f.write(f"{len(results)} kept changes; {sum(1 for r in results if r['checks'])} were caught when filed; "
-                f"{n_caught} of those are caught again by every check that caught them then (quick tier, VERIF_SEED=0); "
-                f"for {n_replay} the replay file written by the check reproduces the violation on the changed tree (exit 1) and is clean on the unchanged tree (exit 0).\n\n")
-        f.write("| change | property | check: exit / replay on changed / replay on unchanged |\n|---|---|---|\n")
-        for r in results:
-            cs = "; ".join(f"{c}: {v.get('exit')} / {v.get('replay_on_patched')} / {v.get('replay_on_pristine')}" for c, v in r["checks"].items()) or r.get("note", "")
-            f.write(f"| {r['name']} | {r.get('property')} | {cs} |\n")
+    if names_arg:
+        old = json.load(open("/verif/seeded/RECHECK.json"))
+        by = {r["name"]: r for r in results}
+        merged = [by.get(r["name"], r) for r in old] + [r for r in results if r["name"] not in {o["name"] for o in old}]
+        write_report(merged)
+        return 0
+    write_report(results)
     return 0
 
 sys.exit(main())
